@@ -126,6 +126,11 @@ def protocols():
             [Asg("a", O({"@index_assign": Fn([Param("i"), Param("v")], Block([say("index_assign", Tuple([Id("i"), Id("v")]))]))})),
              IAsg(Id("a"), Int(1), Int(2)), Core("print", [Str("after")])],
             [Asg("a", O({"@call": fn1(say("call", Bin("+", Id("other"), Dot(Id("self"), "d"))))})), Core("print", [App(Id("a"), [Int(9)])])],
+            # packed arguments are unpacked once, whatever is called
+            [Asg("a", O({"@call": Fn([Param("p"), Param("q")], Block([say("call2", Tuple([Id("p"), Id("q"), Dot(Id("self"), "d")]))]))})),
+             Asg("args", Tuple([Int(1), Int(2)])), Core("print", [App(Id("a"), [Spread(Id("args"))])])],
+            [Asg("a", O({"@call": Fn([Param("p"), Param("q"), Param("r")], Block([say("call3", Tuple([Id("p"), Id("q"), Id("r")]))]))})),
+             Asg("args", List([Int(1), Int(2)])), Core("print", [App(Id("a"), [Int(0), Spread(Id("args"))])])],
             [Asg("a", O({"@display": fn0(say("display", Str("shown")))})), Core("print", [Id("a")])],
             [Asg("a", O({"@type": Str("Foo")})), Core("print", [Core("type", [Id("a")])])],
             [Asg("a", O({"@negate": fn0(Int(1))})), Core("print", [Core("type", [Id("a")])])],
